@@ -146,6 +146,13 @@ theorem wuf_condition_calls : callsOf "worker.WaitUntilFinished$1" = ["Load", "L
     worker never blocks in Response.Send -/
 theorem response_capacity_calls : callsOf "NewResponse" = ["make"] ∧ guardsOf "NewResponse" = [] := by decide
 
+/-- binding a distributed queue: the deferred calls run last-in-first-out, so the queue is registered
+    before the run starts (whose first notification makes the event loop look at the registered queues)
+    and the subscription to the adapter's announcements comes last -/
+theorem distributed_bind_calls :
+    callsOf "workerBinder.WithDistributedQueue" = ["Subscribe", "start", "Register", "NewDistributedQueue"] ∧
+    callsOf "workerBinder.WithDistributedPriorityQueue" = ["Subscribe", "start", "Register", "NewDistributedPriorityQueue"] := by decide
+
 -- ---------------------------------------------------------------- C19: what the race check has to know about
 /-- every kind of synchronisation operation in the code is one the happens-before mapping of the
     driver (`RaceMap.events`) gives a meaning to; a new primitive (sync.Once, sync.Map, atomic.Value …)
